@@ -88,6 +88,10 @@ fn check_raw32(b: &[u8; 32], st: &mut Stats) -> Result<(), String> {
         }
         for x in &rel {
             let same = x == b;
+            #[allow(clippy::nonminimal_bool)]
+            if (a != *x) == same || (a != NodeId::new(x)) == same || (vec![a] == vec![NodeId::new(x)]) != same {
+                return Err(format!("!= / Vec equality with the related value {} disagrees with byte-wise equality ({same})", hex(x)));
+            }
             if (a == *x) != same || (a == NodeId::new(x)) != same || (NodeId::new(x) == *b) != same {
                 return Err(format!("== with the related value {} is {} but byte-wise equality is {same}", hex(x), a == *x));
             }
